@@ -484,6 +484,15 @@ def removeCmds (st : St) : List Cmd :=
 
 /-! ### `diffConfig` -/
 
+/-- `genUniqGroupNames`: new names of the target's address-groups.  A group whose name exists on
+the device gets the first `name-i` that is not the name of an address-group or of an address
+(address and address-group share a name space on the device) of either side, and not generated
+before (repair of F-C03g). -/
+def groupNamesFor (a b : Vsys) : List String :=
+  uniqNamesFrom (a.groups.map (·.name))
+    (a.groups.map (·.name) ++ b.groups.map (·.name) ++ (a.addrs.map (·.name) ++ b.addrs.map (·.name)))
+    (b.groups.map (·.name))
+
 def planFuel (a b : Vsys) : Nat := a.groups.length + b.groups.length + b.sgroups.length + 2
 
 /-- Final planner state of `diffConfig(a, b)`; `out` holds the rule commands. -/
@@ -491,7 +500,7 @@ def planState (diff : Differ) (a0 b0 : Vsys) : St :=
   let a := sortVsys a0
   let b := sortVsys b0
   let fuel := planFuel a b
-  let newGroupNames := uniqNames (a.groups.map (·.name)) (b.groups.map (·.name))
+  let newGroupNames := groupNamesFor a b
   let st := initSt a b newGroupNames
   let st := markObjects fuel st b.rules
   let newRuleNames := uniqNames (ruleNames a.rules) (ruleNames b.rules)
